@@ -271,8 +271,10 @@ Definition on_frame_begin (cf : cfg) (s : rstate) (f : frame) : rstate * list ev
                    then m_dec (m_zon m_a true) (d_start cd (dec m_a)) else m_zon m_a false in
         let m_c := if fb_is_text (f_op f) && utf8validate cf
                    then m_utf8 (m_uon m_b true) 0 true true else m_uon m_b false in
-        m_mtotal (m_mdata (m_mbin m_c (fb_is_binary (f_op f))) []) 0 in
-    let '(c1, m2, e) := on_message_frame_begin cf (cn s) m1 (f_len f) in
+        (* the message hooks are dispatched only while not failedByMe (upstream 18d9c61a): onMessageBegin *)
+        if failed (cn s) then m_c else m_mtotal (m_mdata (m_mbin m_c (fb_is_binary (f_op f))) []) 0 in
+    (* ... and onMessageFrameBegin *)
+    let '(c1, m2, e) := if failed (cn s) then (cn s, m1, []) else on_message_frame_begin cf (cn s) m1 (f_len f) in
     (r_ms (r_cn s c1) m2, e).
 
 (* ---- onMessageFrameData ---- *)
@@ -366,7 +368,8 @@ Definition on_frame_end (cf : cfg) (s : rstate) (f : frame) : rstate * list even
   else
     let m := ms s in
     (* onMessageFrameEnd -> onMessageFrame *)
-    let m1 := m_fdata (if failed (cn s) then m else m_mdata m (mdata m ++ fdata m)) [] in
+    (* onMessageFrameEnd -> onMessageFrame; not dispatched once failedByMe: frame_data is left as it is *)
+    let m1 := if failed (cn s) then m else m_fdata (m_mdata m (mdata m ++ fdata m)) [] in
     if f_fin f then
       let m2 := if zon m1 then m_dec m1 (d_end cd (dec m1)) else m1 in
       let '(c1, e1, stop) := if uon m2 && negb (uend m2) then invalid_payload cf (cn s) else (cn s, [], false) in
@@ -374,7 +377,7 @@ Definition on_frame_end (cf : cfg) (s : rstate) (f : frame) : rstate * list even
       else
         (* onMessageEnd *)
         let e2 := if failed c1 then [] else [EMsg (mdata m2) (mbin m2)] in
-        (r_cur (r_ms (r_cn s c1) (m_inside (m_mdata m2 []) false)) None, e1 ++ e2, Cont)
+        (r_cur (r_ms (r_cn s c1) (m_inside (if failed c1 then m2 else m_mdata m2 []) false)) None, e1 ++ e2, Cont)
     else (r_cur (r_ms s m1) None, [], Cont).
 
 (* current_frame_masker.process(data) *)
